@@ -913,20 +913,28 @@ func endToEnd(r *rand.Rand, out *bufio.Writer, seed int64, n int) {
 	}()
 	cfgID := configuration.NewID("t1", "devicesim", "1.0.0")
 
+	fresh := func() {
+		if e != nil {
+			e.StopControllers()
+		}
+		e = env.New(0, plugin)
+		e.Topo.AddTarget("t1", "devicesim", "1.0.0", false, false)
+		e.StartControllers(false)
+	}
+	var d leafDef
+	var g *gnmi.TypedValue
+	retried := false
 	for i := 0; i < n; i++ {
-		if i%10 == 0 { // a fresh instance now and then: the controllers' work grows with the length of the transaction log
-			if e != nil {
-				e.StopControllers()
+		if !retried {
+			if i%10 == 0 { // a fresh instance now and then: the controllers' work grows with the length of the transaction log
+				fresh()
 			}
-			e = env.New(0, plugin)
-			e.Topo.AddTarget("t1", "devicesim", "1.0.0", false, false)
-			e.StartControllers(false)
+			d = defs[(i+int(seed))%len(defs)]
+			if r.Intn(4) == 0 {
+				d = env.Pick(r, defs)
+			}
+			g = d.gen(r)
 		}
-		d := defs[(i+int(seed))%len(defs)]
-		if r.Intn(4) == 0 {
-			d = env.Pick(r, defs)
-		}
-		g := d.gen(r)
 		path := &gnmi.Path{Target: "t1", Elem: []*gnmi.PathElem{{Name: "c"}, {Name: d.name}}}
 		spath := "/c/" + d.name
 		id := fmt.Sprintf("%d:e%d", seed, i)
@@ -934,7 +942,7 @@ func endToEnd(r *rand.Rand, out *bufio.Writer, seed int64, n int) {
 			fmt.Fprintf(out, "value.e2e\t%s\t%s\t%s\t%s\t%s\t%s\t%s\t%s\t%s\n", id, encG(g, false), encOpts(false, d.opts), code, stored, proto, js, doc, dev)
 		}
 		docsBefore := plugin.NumDocs()
-		ctx, cancel := context.WithTimeout(context.Background(), 20*time.Second)
+		ctx, cancel := context.WithTimeout(context.Background(), 12*time.Second)
 		type setRes struct {
 			resp *gnmi.SetResponse
 			err  error
@@ -949,17 +957,26 @@ func endToEnd(r *rand.Rand, out *bufio.Writer, seed int64, n int) {
 		select {
 		case sr := <-done:
 			resp, err = sr.resp, sr.err
-		case <-time.After(25 * time.Second):
-			// the handler does not answer (a transaction that failed validation is never reported): start afresh
-			cancel()
+		case <-time.After(15 * time.Second):
+			// the handler does not answer (e.g. a transaction that failed validation is never reported)
+			err = context.DeadlineExceeded
+		}
+		timedOut := ctx.Err() != nil || err == context.DeadlineExceeded
+		cancel()
+		if timedOut {
+			// not answered in time: the same case is tried once more on a fresh instance (the controllers of a loaded
+			// machine can stall); a second silence is reported
+			fresh()
+			if !retried {
+				retried = true
+				i--
+				continue
+			}
+			retried = false
 			line("Unanswered", "-", "-", "-", "-", "-")
-			e.StopControllers()
-			e = env.New(0, plugin)
-			e.Topo.AddTarget("t1", "devicesim", "1.0.0", false, false)
-			e.StartControllers(false)
 			continue
 		}
-		cancel()
+		retried = false
 		if err != nil {
 			line(status.Code(err).String(), "-", "-", "-", "-", "-")
 			continue
